@@ -61,7 +61,17 @@ def run_chaindrv(ctx, drv, tag, seed, steps, dbdir, extra=(), shapes_list=None, 
     if p.returncode != 0:
         raise Broken("chaindrv failed (%d): %s\n%s" % (p.returncode, p.stdout[-1500:], p.stderr[-1500:]))
     info = json.loads(p.stdout.strip().splitlines()[-1])
+    if info.get("aborted"):
+        vlib.log("scenario aborted by the node:", info["aborted"][:300])
+        ctx.aborted = getattr(ctx, "aborted", []) + [info["aborted"]]
     return tr, info
+
+
+def check_aborted(ctx):
+    """A scenario the real node could not continue (own block refused, warm-up impossible) must be explained by a reported
+    violation; otherwise the check has no verdict."""
+    if getattr(ctx, "aborted", None) and not ctx.violations and not ctx.known_hits:
+        raise Broken("scenario aborted without a detected violation: %s" % ctx.aborted[0][:500])
 
 
 def validate_trace(ctx, tag, tr, timeout=1500):
